@@ -757,11 +757,13 @@ def check(repo, run, tier):
     g(mr.propagation_table, repo, run, 'C07.R7', 'safe')
     g(unitrules.node_init_table, repo, run, 'C07.R6')
     g(unitrules.strict_block_errors, repo, run, 'C07.R3')
+    g(unitrules.add_multiple_sources_table, repo, run, 'C07.R6')
     g.done()
 
 
 def mutants(repo):
     return [
+        Mutant('multiple-sources-pass-the-whole-flag-list', lambda r: in_func(r, 'Builder.add_multiple_sources', "self.add_source(source, raw_yaml=raw, filename=fname, safe=sflag)", "self.add_source(source, raw_yaml=raw, filename=fname, safe=safe)"), ['C07.R6']),
         Mutant('path-cache-probed-with-the-path-object', lambda r: in_func(r, 'EvalContext.get_node', "        if str(path) in self._eval_cache:", "        if path in self._eval_cache:"), ['C07.R4c']),
         Mutant('multiple-sources-drop-safe', lambda r: in_func(r, 'Builder.add_multiple_sources', "self.add_source(source, raw_yaml=raw, filename=fname, safe=sflag)", "self.add_source(source, raw_yaml=raw, filename=fname)"), ['C07.R6']),
         Mutant('unsafe-error-swallowed-in-strict-block', lambda r: in_func(r, 'EvalContext.require_all_safe', "        except errors.UnsafeError as e:\n            raise errors.EvalError(", "        except errors.UnsafeError as e:\n            pass\n        except ZeroDivisionError as e:\n            raise errors.EvalError("), ['C07.R3']),
